@@ -2,6 +2,7 @@ package main
 
 import (
 	"bufio"
+	"runtime/debug"
 	"fmt"
 	"io"
 	"os"
@@ -358,6 +359,8 @@ func (r *storeRun) op(t *toks) {
 
 func runStore(path string) {
 	syz.VerifStepHook = stepHook
+	// a write through a read-only mapping faults: make that a panic the per-operation recover can report
+	debug.SetPanicOnFault(true)
 	t := readToks(os.Stdin)
 	if t.next() != 1 {
 		panic("engine")
